@@ -339,6 +339,23 @@ def run(ctx: Ctx, rep: Report) -> None:
                     cnode = cfg_node_of(mcfg, cs)
                     okp = cnode is not None and bool(stamp_stores) and mcfg.must_pass(cnode, [mcfg.exit], stamp_stores)
                     rep.check(okp, "C12-R3", meth.site(cs), f"{meth.qualname}: a new engine time written to the discovery cache comes with a new local reference stamp (self.{stamp_attr}) on every path", key=f"{meth.key}|cache-without-stamp")
+            # ... also from outside the class (a client that hands the discovery data of one model to another)
+            for fn_ in ctx.u.functions.values():
+                if fn_.module.external or not fn_.module.name.startswith("puresnmp") or (fn_.cls is not None and fn_.cls.key == v3.key):
+                    continue
+                ocfg = None
+                for n in own_nodes(fn_.node):
+                    if not (isinstance(n, ast.Assign) and any(isinstance(t, ast.Attribute) and t.attr == "disco" for t in n.targets)):
+                        continue
+                    tgt = next(t for t in n.targets if isinstance(t, ast.Attribute) and t.attr == "disco")
+                    if isinstance(n.value, ast.Constant) and n.value.value is None:
+                        continue  # invalidation: the next request discovers (and stamps) again
+                    ocfg = ocfg or ctx.cfg(fn_)
+                    cnode = cfg_node_of(ocfg, n)
+                    stamps = [cfg_node_of(ocfg, m) for m in own_nodes(fn_.node) if isinstance(m, ast.Assign) and any(isinstance(t, ast.Attribute) and t.attr == stamp_attr and norm(t.value) == norm(tgt.value) for t in m.targets)]
+                    stamps = [x for x in stamps if x is not None]
+                    okp = cnode is not None and bool(stamps) and ocfg.must_pass(cnode, [ocfg.exit], stamps)
+                    rep.check(okp, "C12-R3", fn_.site(n), f"{fn_.qualname}: discovery data written into a message-processing model from outside (`{norm(n)[:60]}`) comes with its local reference stamp ({stamp_attr}) on every path; without it the engine time sent never advances", key=f"{fn_.key}|cache-without-stamp")
         elapsed_ok = False
         for n in own_nodes(enc.node):
             if isinstance(n, ast.BinOp) and isinstance(n.op, ast.Sub) and isinstance(n.left, ast.Call) and any(c in CLOCKS for c in ctx.r.callee_names(enc, n.left)) and stamp_attr and norm(n.right) == f"self.{stamp_attr}":
